@@ -368,6 +368,37 @@ func (c *TermCtx) cmp(op Op, a, b *Term, depth int) *Term {
 			return c.Ite(b.A[0], c.cmp(op, a, b.A[1], depth-1), c.cmp(op, a, b.A[2], depth-1))
 		}
 	}
+	// difference of two zero-extended values compared with zero: no wrap-around is possible
+	if zc, other := b, a; zc.IsConst() && zc.C == 0 || a.IsConst() && a.C == 0 {
+		if a.IsConst() && a.C == 0 {
+			other = b
+		}
+		if other.Op == OpSub {
+			x, y := other.A[0], other.A[1]
+			if op == OpEq {
+				return c.cmp(OpEq, x, y, depth)
+			}
+			if x.Op == OpZExt && y.Op == OpZExt && x.A[0].W <= x.W-2 && y.A[0].W <= y.W-2 {
+				xi, yi := x.A[0], y.A[0]
+				iw := xi.W
+				if yi.W > iw {
+					iw = yi.W
+				}
+				xi, yi = c.ZExt(xi, iw), c.ZExt(yi, iw)
+				zeroOnRight := b.IsConst() && b.C == 0 && other == a
+				switch {
+				case op == OpSlt && zeroOnRight: // x-y < 0
+					return c.cmp(OpUlt, xi, yi, depth)
+				case op == OpSle && zeroOnRight: // x-y <= 0
+					return c.cmp(OpUle, xi, yi, depth)
+				case op == OpSlt && !zeroOnRight: // 0 < x-y
+					return c.cmp(OpUlt, yi, xi, depth)
+				case op == OpSle && !zeroOnRight: // 0 <= x-y
+					return c.cmp(OpUle, yi, xi, depth)
+				}
+			}
+		}
+	}
 	if op == OpEq {
 		// zext(x) == const
 		if b.IsConst() && a.Op == OpZExt {
